@@ -20,13 +20,20 @@ pub mod sync {
         Barrier, BarrierWaitResult, LockResult, Once, OnceState, PoisonError, RwLock,
         RwLockReadGuard, RwLockWriteGuard, TryLockError, TryLockResult, WaitTimeoutResult,
     };
-    pub use std::sync::{Arc, Weak};
+    pub use std::sync::{Arc, LazyLock, OnceLock, Weak};
     pub mod atomic {
         pub use shuttle::sync::atomic::*;
     }
     pub mod mpsc {
         pub use shuttle::sync::mpsc::*;
     }
+}
+
+/// `std::thread` as the simulator sees it (tools/rewrite_sync.py sends `std::thread::...`
+/// here): spawned and scoped threads are simulated tasks.
+pub mod thread {
+    pub use shuttle::thread::*;
+    pub use std::thread::available_parallelism;
 }
 
 /// Payload of the panic used to model a run that is cut short (C17 history
